@@ -1502,6 +1502,18 @@ func checkPartitionClamp(p *Prog, r *Roles, res *Result, rule string) {
 		// judge: is v, evaluated on the way into block at, the requested bound or the clamp of an engine border with it?
 		// A value chosen between several (phi), and one computed by a helper of the repository that is handed the bound,
 		// is judged alternative by alternative, each under the branch conditions it is chosen under.
+		// function-valued parameters of a helper, bound to the functions passed at the call the judgement descended
+		// through (clip(key, bound, maxBytes)): set on descent, read when the helper calls its parameter
+		fenv := map[*ssa.Parameter]*ssa.Function{}
+		calleeOfCall := func(c *ssa.Call) *ssa.Function {
+			if sc := c.Common().StaticCallee(); sc != nil {
+				return sc
+			}
+			if prm, ok := c.Common().Value.(*ssa.Parameter); ok {
+				return fenv[prm]
+			}
+			return nil
+		}
 		var judge func(v ssa.Value, at *ssa.BasicBlock, bound ssa.Value, wantKind, what string, depth int) (string, bool)
 		judge = func(v ssa.Value, at *ssa.BasicBlock, bound ssa.Value, wantKind, what string, depth int) (string, bool) {
 			v = p.resolveDeep(v)
@@ -1525,11 +1537,11 @@ func checkPartitionClamp(p *Prog, r *Roles, res *Result, rule string) {
 			if ex, ok := v.(*ssa.Extract); ok {
 				hc, _ = ex.Tuple.(*ssa.Call)
 				idx = ex.Index
-			} else if c, ok := v.(*ssa.Call); ok && isBytesMinMax(c.Common().StaticCallee()) == "" {
+			} else if c, ok := v.(*ssa.Call); ok && isBytesMinMax(calleeOfCall(c)) == "" {
 				hc = c
 			}
 			if hc != nil {
-				sc := hc.Common().StaticCallee()
+				sc := calleeOfCall(hc)
 				if sc == nil || sc.Blocks == nil || hc.Common().IsInvoke() || sc.Pkg == nil || !strings.HasPrefix(sc.Pkg.Pkg.Path(), modPath) {
 					return "the partition border is not clamped to the requested interval", false
 				}
@@ -1537,6 +1549,9 @@ func checkPartitionClamp(p *Prog, r *Roles, res *Result, rule string) {
 				for i, a := range hc.Common().Args {
 					if p.resolveDeep(a) == bound && i < len(sc.Params) {
 						bp = sc.Params[i]
+					}
+					if fn, ok := p.resolveDeep(a).(*ssa.Function); ok && i < len(sc.Params) {
+						fenv[sc.Params[i]] = fn
 					}
 				}
 				if bp == nil {
@@ -1559,7 +1574,7 @@ func checkPartitionClamp(p *Prog, r *Roles, res *Result, rule string) {
 				return wantKind + "(engine border, requested bound) in " + funcName(sc), true
 			}
 			if c, ok := v.(*ssa.Call); ok {
-				if k := isBytesMinMax(c.Common().StaticCallee()); k != "" {
+				if k := isBytesMinMax(calleeOfCall(c)); k != "" {
 					hasBound := false
 					for _, a := range c.Common().Args {
 						if p.resolveDeep(a) == bound {
